@@ -326,3 +326,159 @@ Proof.
   unfold opts_of_params in Ii, Ic. rewrite Ii, Ic in HR. destruct HR as [HW _].
   exact (wsrel_e_root_inv _ _ _ _ _ _ _ _ _ _ HW).
 Qed.
+
+(* ------------------------------------------------------------------ *)
+(* 4. compact vs canonical: the reader's normalisation                  *)
+
+(* attribute-value normalisation of a reader (line ends, then literal white space -> space) *)
+Definition norm_attr (kv : bytes * bytes) : bytes * bytes := (fst kv, attr_ws (norm_eol (snd kv))).
+
+(* [eol_rel k c]: the element [c] is the element [k] with XML's own normalisation applied to everything canonical
+   generation writes as character references and non-canonical generation writes raw:
+   attribute values get attribute-value normalisation; the content is the same sequence of pieces (child elements,
+   pieces of character data, CDATA payloads), delivered by the reader with line ends normalised per run of character
+   data (fin false) instead of exactly (fin true); child elements are related in the same way. *)
+Inductive eol_rel : xitem -> xitem -> Prop :=
+| er_elt n a p1 p2 : pieces_rel p1 p2 -> eol_rel (XE n a (fin true p1)) (XE n (map norm_attr a) (fin false p2))
+with pieces_rel : list sitem -> list sitem -> Prop :=
+| pr_nil : pieces_rel [] []
+| pr_run t r1 r2 : pieces_rel r1 r2 -> pieces_rel (SR t :: r1) (SR t :: r2)
+| pr_cdata t r1 r2 : pieces_rel r1 r2 -> pieces_rel (SC t :: r1) (SC t :: r2)
+| pr_elt n1 a1 c1 n2 a2 c2 r1 r2 :
+    eol_rel (XE n1 a1 c1) (XE n2 a2 c2) -> pieces_rel r1 r2 -> pieces_rel (SE n1 a1 c1 :: r1) (SE n2 a2 c2 :: r2).
+
+Lemma pieces_rel_app a b c d : pieces_rel a b -> pieces_rel c d -> pieces_rel (a ++ c) (b ++ d).
+Proof. induction 1; intros H'; cbn [app]; [exact H'|constructor; auto|constructor; auto|constructor; auto]. Qed.
+
+Lemma raw_ok_norm s : raw_ok s = true -> attr_ws (norm_eol s) = s.
+Proof.
+  unfold raw_ok. intros H. repeat (apply andb_true_iff in H as [H ?]).
+  rewrite norm_eol_id by assumption. now apply attr_ws_id.
+Qed.
+
+Lemma spec_attrs_e_norm l ok oc parent nm attrs :
+  lang_ok l = true -> is_canonical ok = true -> is_canonical oc = false ->
+  spec_attrs_e l oc parent nm attrs = map norm_attr (spec_attrs_e l ok parent nm attrs).
+Proof.
+  intros HL Hk Hc. unfold spec_attrs_e. rewrite map_app. f_equal.
+  - unfold spec_ns. destruct (xl_ns l) as [nst|] eqn:EN; [|reflexivity]. destruct nm as [rw|lit]; [|reflexivity].
+    destruct (ns_wanted parent (TTok rw)); [|reflexivity].
+    destruct (get_xmlns nst (tr_page rw)) as [ns|] eqn:EG; [|reflexivity].
+    unfold norm_attr. cbn [map fst snd]. rewrite raw_ok_norm; [reflexivity|].
+    unfold lang_ok in HL. rewrite EN in HL. apply andb_true_iff in HL as [_ HL].
+    destruct (get_xmlns_in _ _ _ EG) as (r & Hin & <-). rewrite forallb_forall in HL. now apply HL.
+  - destruct (xl_has_attrs l); [|reflexivity]. rewrite map_map. apply map_ext. intros a.
+    unfold norm_attr, spec_attr_value_e. cbn [fst snd]. now rewrite Hk, Hc.
+Qed.
+
+Definition rel_res_k (r1 r2 : option (list sitem * est)) : Prop :=
+  match r1, r2 with
+  | Some (i1, s1), Some (i2, s2) => pieces_rel i1 i2 /\ s1 = s2
+  | None, None => True
+  | _, _ => False
+  end.
+
+Section CanonicalVsCompact.
+  Variables (dk dc : N).
+  (* white space kept (otherwise compact generation strips text and canonical generation does not) *)
+  Let ok : opts := mk_opts Canonical dk false false.
+  Let oc : opts := mk_opts Compact dc false false.
+
+  Lemma text_item_e_kc l parent s c : text_item_e l ok parent s c = text_item_e l oc parent s c.
+  Proof.
+    unfold text_item_e, text_policy. cbn [o_ignore_empty o_remove_blanks andb].
+    destruct (negb (e_in_cdata s) && negb (tag_is_binary (text_tag s parent)) && negb (is_canonical ok)),
+             (negb (e_in_cdata s) && negb (tag_is_binary (text_tag s parent)) && negb (is_canonical oc)); reflexivity.
+  Qed.
+
+  Definition rel_node_k_stmt (n : node) : Prop :=
+    forall l parent s, lang_ok l = true -> node_ok_e l ok parent (e_cur_tag s) n = true ->
+      rel_res_k (info_e l ok parent s n) (info_e l oc parent s n).
+
+  Lemma rel_list_k ch : Forall rel_node_k_stmt ch ->
+    forall l parent s, lang_ok l = true -> nodes_ok_e l ok parent (e_cur_tag s) ch = true ->
+      rel_res_k (info_list_e (info_e l ok parent) ch s) (info_list_e (info_e l oc parent) ch s).
+  Proof.
+    induction 1 as [|n r Hn Hr IH]; intros l parent s HL Hok.
+    - cbn. split; [constructor|reflexivity].
+    - cbn [nodes_ok_e] in Hok. apply andb_true_iff in Hok as [Hok1 Hok2].
+      cbn [info_list_e]. specialize (Hn l parent s HL Hok1). unfold rel_res_k in Hn.
+      destruct (info_e l ok parent s n) as [[a1 t1]|], (info_e l oc parent s n) as [[a2 t2]|]; try contradiction; [|exact I].
+      destruct Hn as [Hw <-].
+      fold (info_list_e (info_e l ok parent)). fold (info_list_e (info_e l oc parent)).
+      specialize (IH l parent (reset_cur t1) HL Hok2). unfold rel_res_k in IH.
+      destruct (info_list_e (info_e l ok parent) r (reset_cur t1)) as [[b1 u1]|],
+               (info_list_e (info_e l oc parent) r (reset_cur t1)) as [[b2 u2]|]; try contradiction; [|exact I].
+      destruct IH as [Hw2 <-]. cbn. split; [now apply pieces_rel_app|reflexivity].
+  Qed.
+
+  Lemma rel_node_k : forall n, rel_node_k_stmt n.
+  Proof.
+    induction n as [nm attrs ch IHch|t|ch _| |sl roots IHr] using node_ind2; intros l parent s HL Hok; try exact I.
+    - cbn [node_ok_e] in Hok.
+      change ((fix go (cur0 : option trow) (ns : list node) {struct ns} : bool :=
+                 match ns with [] => true | x :: r => node_ok_e l ok (pinfo_below parent nm) cur0 x && go None r end) (cur_of nm) ch)
+        with (nodes_ok_e l ok (pinfo_below parent nm) (cur_of nm) ch) in Hok.
+      apply andb_true_iff in Hok as [_ Hok4].
+      cbn [info_e]. rewrite (spec_attrs_e_norm l ok oc parent nm attrs HL eq_refl eq_refl).
+      destruct ch as [|c0 ch0].
+      + unfold rel_res_k. split; [|reflexivity]. constructor. constructor; [|constructor; constructor].
+        exact (er_elt (tname_bytes nm) (spec_attrs_e l ok parent nm attrs) [] [] pr_nil).
+      + assert (Ecur : e_cur_tag (s_in ok (c0 :: ch0) nm s) = cur_of nm) by reflexivity.
+        rewrite <- Ecur in Hok4.
+        pose proof (rel_list_k (c0 :: ch0) IHch l (pinfo_below parent nm) (s_in ok (c0 :: ch0) nm s) HL Hok4) as HLk.
+        change (s_in oc (c0 :: ch0) nm s) with (s_in ok (c0 :: ch0) nm s).
+        unfold rel_res_k in HLk.
+        destruct (info_list_e (info_e l ok (pinfo_below parent nm)) (c0 :: ch0) (s_in ok (c0 :: ch0) nm s)) as [[i1 t1]|],
+                 (info_list_e (info_e l oc (pinfo_below parent nm)) (c0 :: ch0) (s_in ok (c0 :: ch0) nm s)) as [[i2 t2]|];
+          try contradiction; [|exact I].
+        destruct HLk as [Hw <-]. unfold rel_res_k. split; [|reflexivity].
+        constructor. constructor; [|constructor; constructor].
+        change (is_canonical ok) with true. change (is_canonical oc) with false.
+        apply er_elt. constructor. apply pieces_rel_app; [exact Hw|constructor; constructor].
+    - cbn [info_e]. rewrite (text_item_e_kc l parent s t). unfold rel_res_k, text_item_e.
+      destruct (text_policy oc parent s t) as [c|]; [|split; [constructor|reflexivity]].
+      destruct (tag_is_binary (text_tag s parent)); [destruct (b64_enc _); [|exact I]|]; (split; [repeat constructor|reflexivity]).
+    - cbn [info_e]. destruct ch as [|[| t | | |] [|c1 ch1]]; try exact I; unfold rel_res_k; (split; [repeat constructor|reflexivity]).
+    - cbn [node_ok_e] in Hok. destruct sl as [l'|]; [|discriminate]. apply andb_true_iff in Hok as [HL' Hok].
+      change ((fix go (cur0 : option trow) (ns : list node) {struct ns} : bool :=
+                 match ns with [] => true | x :: r => node_ok_e l' ok proot cur0 x && go None r end) None roots)
+        with (nodes_ok_e l' ok proot None roots) in Hok.
+      cbn [info_e].
+      pose proof (rel_list_k roots IHr l' proot (est0 (e_indent s)) HL' Hok) as HLk. unfold rel_res_k in HLk.
+      destruct (info_list_e (info_e l' ok proot) roots (est0 (e_indent s))) as [[i1 t1]|],
+               (info_list_e (info_e l' oc proot) roots (est0 (e_indent s))) as [[i2 t2]|]; try contradiction; [|exact I].
+      destruct HLk as [Hw _]. unfold rel_res_k. split; [exact Hw|reflexivity].
+  Qed.
+End CanonicalVsCompact.
+
+Lemma pieces_rel_root_inv u1 n1 a1 c1 v1 u2 n2 a2 c2 v2 :
+  pieces_rel [SR u1; SE n1 a1 c1; SR v1] [SR u2; SE n2 a2 c2; SR v2] -> eol_rel (XE n1 a1 c1) (XE n2 a2 c2).
+Proof. intros H. inversion H as [|? ? ? H'| |]; subst. inversion H' as [| | |? ? ? ? ? ? ? ? E _]; subst. exact E. Qed.
+
+(* (b) C07, XML half, FULL: for every tree satisfying the property's hypotheses, with white space kept, canonical and
+   compact generation are both accepted by the reader and carry the language's DOCTYPE; the compact reading is the
+   canonical reading with the reader's own normalisation applied (eol_rel): canonical generation preserves CR / LF / TAB
+   exactly (written as character references), compact generation leaves them to XML's line-end and attribute-value
+   normalisation. *)
+Theorem c07_xml_compact_canonical_e l o_any i1 i2 nm attrs ch out_k out_c :
+  lang_ok l = true ->
+  node_ok_e l o_any proot None (Elt nm attrs ch) = true ->
+  enc_xml l Canonical i1 true [Elt nm attrs ch] = XOk out_k ->
+  enc_xml l Compact i2 true [Elt nm attrs ch] = XOk out_c ->
+  forall fuel, (node_fuel (Elt nm attrs ch) + 2 <= fuel)%nat ->
+    exists rk rc,
+      read_xml fuel out_k = ROk (doc_of l [rk]) /\ read_xml fuel out_c = ROk (doc_of l [rc]) /\ eol_rel rk rc.
+Proof.
+  intros HL Hok Ek Ec fuel Hf.
+  assert (Hokk : node_ok_e l (opts_of_params Canonical i1 true) proot None (Elt nm attrs ch) = true)
+    by (rewrite (node_ok_e_opts _ l _ o_any); exact Hok).
+  assert (Hokc : node_ok_e l (opts_of_params Compact i2 true) proot None (Elt nm attrs ch) = true)
+    by (rewrite (node_ok_e_opts _ l _ o_any); exact Hok).
+  destruct (read_enc_e l _ nm attrs ch out_k HL Hokk Ek) as (ck & sk & Ik & Rk).
+  destruct (read_enc_e l _ nm attrs ch out_c HL Hokc Ec) as (cc & sc & Ic & Rc).
+  eexists _, _. split; [apply Rk; exact Hf|]. split; [apply Rc; exact Hf|].
+  pose proof (rel_node_k 1 1 (Elt nm attrs ch) l proot (est0 0) HL Hokk) as HR.
+  unfold opts_of_params in Ik, Ic. cbn [negb] in Ik, Ic. rewrite Ik, Ic in HR. destruct HR as [HW _].
+  exact (pieces_rel_root_inv _ _ _ _ _ _ _ _ _ _ HW).
+Qed.
